@@ -11,6 +11,7 @@ import (
 	"syscall"
 
 	"github.com/zerx-lab/wordZero/pkg/document"
+	"github.com/zerx-lab/wordZero/pkg/verifrt"
 
 	"verif/inspect"
 	"verif/sim"
@@ -47,11 +48,14 @@ func (c05) Describe() Description {
 			"map-order policy; the fault point n (RLIMIT_FSIZE=n around the one Save call) is enumerated over EVERY byte offset 0..L of the " +
 			"fault-free output when L <= the tier's exhaustive bound (quick 12KiB, thorough 64KiB), otherwise over all offsets within 64 bytes of every ZIP " +
 			"local-header/data/central-directory boundary, every 4096-byte flush boundary +-1 and 1500 PRNG-chosen offsets; plus /dev/full, " +
-			"symlink-to-/dev/full, directory, path-below-file, over-long name, dangling symlink, existing longer file, nested new directories. " +
+			"symlink-to-/dev/full, directory, path-below-file, over-long name, dangling symlink, existing longer file, nested new directories; plus, through the " +
+			"file-system seam of the instrumented copy, EVERY file-system call of one Save (create directories, create file, close file: 4 error kinds each; a failing close " +
+			"loses the tail of the file like a delayed-allocation or network file system) and EVERY Write call that reaches the file (failing once with 0, half or all-but-one " +
+			"bytes written, later writes succeeding again), one at a time, each followed by a fault-free Save that must succeed and agree with ToBytes. " +
 			"evaluations = faulted or fault-free Save calls judged; a case is non-trivial when its document has >= 3 operations and at least one " +
 			"write fault actually fired (Save met a short write/EFBIG/ENOSPC); distinct = distinct run fingerprints (hash of the event log: ops, L, verdict per offset class).",
 		Assumptions: []string{
-			"errors reported only by close(2) (NFS-style) or fsync are not reachable without a file-system seam; Save never syncs and power-loss durability is not part of the statement",
+			"errors reported only by close(2) are injected at the file-system seam of the instrumented copy (the kernel cannot be made to produce them here); Save never syncs and power-loss durability is not part of the statement",
 			"RLIMIT_FSIZE/EFBIG and /dev/full/ENOSPC stand for every cause of a failing write(2): the library cannot tell them apart",
 		},
 		RealVsStub: map[string]string{
@@ -62,7 +66,7 @@ func (c05) Describe() Description {
 }
 
 func (c05) Nontrivial(c *sim.Case, st *sim.Stats) bool {
-	return c.NOps() >= 3 && (st.Faults["W-limit"] > 0 || st.Faults["W-full"] > 0)
+	return c.NOps() >= 3 && (st.Faults["W-limit"] > 0 || st.Faults["W-full"] > 0 || st.Faults["call-write"] > 0)
 }
 
 func (c05) Gen(r *sim.Rand, c *sim.Case, tier string) {
@@ -255,6 +259,18 @@ func (p c05) Exec(c *sim.Case, env *Env) []sim.Violation {
 		}
 	}
 
+	// ---- every file-system call and every Write call of one Save fails, one at a time (file-system seam of the
+	//      instrumented copy): a failing create/mkdir, a Write that fails ONCE with the later ones succeeding again
+	//      (the size limit below cannot do that: it is permanent), and a close(2) that reports lost delayed writes
+	if c.C("offset_set") == 0 || c.C("call_set") != 0 {
+		if v := p.callFaults(c, d, dir, env); v != nil {
+			return append(viol, *v)
+		}
+		if c.C("call_set") != 0 {
+			return viol
+		}
+	}
+
 	// ---- enumerate the fault point
 	var offsets []int64
 	exhaustive := false
@@ -383,6 +399,132 @@ func (p c05) Exec(c *sim.Case, env *Env) []sim.Violation {
 	}
 	env.Log.Event("offsets=%d nil=%d err=%d exhaustive=%v ordercalls=%d", len(offsets), nilOK, errs, exhaustive, ord.Calls)
 	return viol
+}
+
+var callErrnos = []syscall.Errno{syscall.EIO, syscall.ENOSPC, syscall.EACCES, syscall.EDQUOT}
+
+// callFaults enumerates the calls of one Save: with k ranging over every file-system call (create directories,
+// create file, close file) and over every Write that reaches the file, call k fails and every other call behaves.
+// If Save returns nil the file must be the faithful package; afterwards a fault-free Save must succeed and agree
+// with ToBytes (a failed Save leaves the document usable).
+func (c05) callFaults(c *sim.Case, d *document.Document, dir string, env *Env) *sim.Violation {
+	target := filepath.Join(dir, "calls", "out.docx")
+	defer os.RemoveAll(filepath.Join(dir, "calls"))
+	prevF, prevW := verifrt.IOFault, verifrt.WriteFault
+	defer func() { verifrt.IOFault, verifrt.WriteFault = prevF, prevW }()
+	// fault-free pass: count the calls
+	var ioKinds []string
+	nwr := 0
+	verifrt.IOFault = func(kind, path string) error { ioKinds = append(ioKinds, kind); return nil }
+	verifrt.WriteFault = func(n int) (int, error) { nwr++; return n, nil }
+	err := d.Save(target)
+	verifrt.IOFault, verifrt.WriteFault = nil, nil
+	if err != nil {
+		return &sim.Violation{Clause: "spurious-error", Sig: "fault-free-save-failed", Detail: err.Error()}
+	}
+	if len(ioKinds) == 0 && nwr == 0 {
+		env.Stats.Probe("call_seam_absent") // plain build: no file-system seam
+		return nil
+	}
+	type fp struct{ write, idx, mode int }
+	var points []fp
+	if c.C("call_set") != 0 {
+		pt := fp{c.C("call_write"), c.C("call_idx"), c.C("call_mode")}
+		if pt.write == 0 && pt.idx >= len(ioKinds) { // the document changed under minimisation: keep the fault inside the Save
+			pt.idx = len(ioKinds) - 1
+		}
+		if pt.write == 1 && pt.idx >= nwr {
+			pt.idx = nwr - 1
+		}
+		points = []fp{pt}
+	} else {
+		for k := range ioKinds {
+			for m := range callErrnos {
+				points = append(points, fp{0, k, m})
+			}
+		}
+		for k := 0; k < nwr; k++ {
+			for m := 0; m < 3; m++ { // 0: nothing written, 1: half of the bytes written, 2: all but one byte written
+				points = append(points, fp{1, k, m})
+			}
+		}
+	}
+	for _, pt := range points {
+		os.RemoveAll(filepath.Join(dir, "calls"))
+		seenIO, seenW, fired := 0, 0, ""
+		verifrt.IOFault = func(kind, path string) error {
+			defer func() { seenIO++ }()
+			if pt.write == 0 && seenIO == pt.idx {
+				fired = kind
+				return callErrnos[pt.mode%len(callErrnos)]
+			}
+			return nil
+		}
+		verifrt.WriteFault = func(n int) (int, error) {
+			defer func() { seenW++ }()
+			if pt.write == 1 && seenW == pt.idx {
+				fired = "write"
+				k := 0
+				switch pt.mode {
+				case 1:
+					k = n / 2
+				case 2:
+					k = n - 1
+				}
+				return k, syscall.EIO
+			}
+			return n, nil
+		}
+		var serr error
+		sig, pn := Guard(func() { serr = d.Save(target) })
+		verifrt.IOFault, verifrt.WriteFault = nil, nil
+		env.Stats.Probe("evaluations")
+		if fired == "" {
+			env.Stats.Probe("call_fault_not_reached")
+			continue
+		}
+		env.Stats.Fault("call-" + fired)
+		pin := func() {
+			if c.C("call_set") == 0 {
+				c.Cfg["call_set"], c.Cfg["call_write"], c.Cfg["call_idx"], c.Cfg["call_mode"], c.Cfg["offset_set"] = 1, pt.write, pt.idx, pt.mode, 1
+			}
+		}
+		if pn {
+			pin()
+			return &sim.Violation{Clause: "panic", Sig: sig, Detail: fmt.Sprintf("Save panicked when its %s call failed", fired)}
+		}
+		if serr == nil {
+			got, _ := os.ReadFile(target)
+			now, _ := d.ToBytes()
+			if ok, why := sameParts(got, now); !ok {
+				pin()
+				return &sim.Violation{Clause: "nil-on-fault", Sig: "failing-call:" + fired, Detail: fmt.Sprintf("call %d (%s) of Save failed (%v, mode %d) and Save returned nil, but the file is not the package: %s", pt.idx, fired, callErrnos[pt.mode%len(callErrnos)], pt.mode, why)}
+			}
+			env.Stats.Probe("call_fault_survived_faithfully")
+		} else {
+			env.Stats.Probe("call_fault_reported")
+		}
+		// the document is as usable as before
+		after := filepath.Join(dir, "calls", "after.docx")
+		var aerr error
+		sig, pn = Guard(func() { aerr = d.Save(after) })
+		if pn {
+			pin()
+			return &sim.Violation{Clause: "panic", Sig: sig, Detail: fmt.Sprintf("Save after a failed %s call panicked", fired)}
+		}
+		if aerr != nil {
+			pin()
+			return &sim.Violation{Clause: "spurious-error", Sig: "save-after-failed-save:" + fired, Detail: fmt.Sprintf("after a Save whose %s call failed, a fault-free Save fails: %v", fired, aerr)}
+		}
+		got, _ := os.ReadFile(after)
+		now, _ := d.ToBytes()
+		if ok, why := sameParts(got, now); !ok {
+			pin()
+			return &sim.Violation{Clause: "save-vs-tobytes", Sig: "after-failed-save:" + fired, Detail: why}
+		}
+	}
+	env.Stats.ProbeN("calls_enumerated", int64(len(points)))
+	return nil
 }
 
 func readable(b []byte) bool {
